@@ -369,7 +369,7 @@ type job struct {
 }
 
 func TestCheck(t *testing.T) {
-	r := vk.Start("C18", "model_checking", 110*time.Second, 14*time.Minute)
+	r := vk.Start("C18", "model_checking", 120*time.Second, 14*time.Minute)
 	if r.Replay != "" {
 		replay(t, r)
 		return
